@@ -101,3 +101,35 @@ def rotate_coefficients(L, c, R):
     ph = np.arctan2(src[:, 1], src[:, 0])
     vals = synth_complex(L, c, th, ph)
     return project(L, vals, T, P, W)
+
+
+def rotation_blocks(L, R):
+    """
+    Wigner-type blocks D^l (complex layout, m = -l..l) of the rotation g(x) = f(R^-1 x):
+    c'_l = D^l c_l with D^l[m, m'] = integral conj(Y_lm(x)) Y_lm'(R^-1 x) dx, by exact quadrature.
+    """
+    T, P, W = quadrature(L)
+    th, ph = T.ravel(), P.ravel()
+    xyz = np.stack([np.sin(th) * np.cos(ph), np.sin(th) * np.sin(ph), np.cos(th)], axis=-1)
+    src = xyz @ np.asarray(R, dtype=float)  # R^-1 x = R^T x  (row vectors: x @ R)
+    th2 = np.arccos(np.clip(src[:, 2], -1.0, 1.0))
+    ph2 = np.arctan2(src[:, 1], src[:, 0])
+    w = W.ravel()
+    blocks = []
+    for l in range(L + 1):
+        A = np.array([Y(l, m, th, ph) for m in range(-l, l + 1)])
+        B = np.array([Y(l, m, th2, ph2) for m in range(-l, l + 1)])
+        blocks.append((np.conj(A) * w[None, :]) @ B.T)
+    return blocks
+
+
+def apply_blocks(L, blocks, c):
+    out = np.zeros((L + 1) ** 2, dtype=complex)
+    c = np.asarray(c)
+    for l in range(L + 1):
+        out[l * l:(l + 1) ** 2] = blocks[l] @ c[l * l:(l + 1) ** 2]
+    return out
+
+
+def real_layout_from_full(L, full):
+    return np.array([full[idx_c(l, m)] for (l, m) in lm_real(L)])
